@@ -110,39 +110,86 @@ def intent32 (name : String) (ops : List Opnd) : Option Instr32 :=
   | some c => intentOf c ops
   | none => none
 
-/-- The RVC instruction that `c.xxx operands…` denotes (docs/instruction_reference.rst). -/
-def intent16 (name : String) (ops : List Opnd) : Option CInstr :=
-  match name, ops with
-  | "c.addi4spn", [.reg rd, .imm v] => some (.addi4spn rd v.toNat)
-  | "c.lw", [.reg rd, .reg rs1, .imm v] => some (.lw rd rs1 v.toNat)
-  | "c.sw", [.reg rs1, .reg rs2, .imm v] => some (.sw rs1 rs2 v.toNat)
-  | "c.nop", [] => some .nop
-  | "c.addi", [.reg rd, .imm v] => some (.addi rd v)
-  | "c.jal", [.imm v] => some (.jal v)
-  | "c.li", [.reg rd, .imm v] => some (.li rd v)
-  | "c.addi16sp", [.imm v] => some (.addi16sp v)
-  | "c.lui", [.reg rd, .imm v] =>
+/-- the 27 RV32C mnemonics -/
+inductive CMn where
+  | addi4spn | lw | sw | nop | addi | jal | li | addi16sp | lui | srli | srai | andi | sub | xor | or
+  | and | j | beqz | bnez | slli | lwsp | jr | mv | ebreak | jalr | add | swsp
+  deriving Repr, DecidableEq
+
+def CMn.all : List CMn := [.addi4spn, .lw, .sw, .nop, .addi, .jal, .li, .addi16sp, .lui, .srli, .srai,
+  .andi, .sub, .xor, .or, .and, .j, .beqz, .bnez, .slli, .lwsp, .jr, .mv, .ebreak, .jalr, .add, .swsp]
+
+def CMn.name : CMn → String
+  | .addi4spn => "c.addi4spn"
+  | .lw => "c.lw"
+  | .sw => "c.sw"
+  | .nop => "c.nop"
+  | .addi => "c.addi"
+  | .jal => "c.jal"
+  | .li => "c.li"
+  | .addi16sp => "c.addi16sp"
+  | .lui => "c.lui"
+  | .srli => "c.srli"
+  | .srai => "c.srai"
+  | .andi => "c.andi"
+  | .sub => "c.sub"
+  | .xor => "c.xor"
+  | .or => "c.or"
+  | .and => "c.and"
+  | .j => "c.j"
+  | .beqz => "c.beqz"
+  | .bnez => "c.bnez"
+  | .slli => "c.slli"
+  | .lwsp => "c.lwsp"
+  | .jr => "c.jr"
+  | .mv => "c.mv"
+  | .ebreak => "c.ebreak"
+  | .jalr => "c.jalr"
+  | .add => "c.add"
+  | .swsp => "c.swsp"
+
+def classOf16 (name : String) : Option CMn := CMn.all.find? (fun c => c.name == name)
+
+/-- The RVC instruction that an RVC mnemonic with resolved operands denotes
+    (docs/instruction_reference.rst). -/
+def intentOf16 (c : CMn) (ops : List Opnd) : Option CInstr :=
+  match c, ops with
+  | .addi4spn, [.reg rd, .imm v] => some (.addi4spn rd v.toNat)
+  | .lw, [.reg rd, .reg rs1, .imm v] => some (.lw rd rs1 v.toNat)
+  | .sw, [.reg rs1, .reg rs2, .imm v] => some (.sw rs1 rs2 v.toNat)
+  | .nop, [] => some .nop
+  | .addi, [.reg rd, .imm v] => some (.addi rd v)
+  | .jal, [.imm v] => some (.jal v)
+  | .li, [.reg rd, .imm v] => some (.li rd v)
+  | .addi16sp, [.imm v] => some (.addi16sp v)
+  | .lui, [.reg rd, .imm v] =>
       -- both the signed spelling (-32..31) and the 20-bit unsigned one (0xfffe0..0xfffff)
       some (.lui rd (if v ≥ 0xfffe0 then v - 1048576 else v))
-  | "c.srli", [.reg rd, .imm v] => some (.srli rd v.toNat)
-  | "c.srai", [.reg rd, .imm v] => some (.srai rd v.toNat)
-  | "c.andi", [.reg rd, .imm v] => some (.andi rd v)
-  | "c.sub", [.reg rd, .reg rs2] => some (.sub rd rs2)
-  | "c.xor", [.reg rd, .reg rs2] => some (.xor rd rs2)
-  | "c.or", [.reg rd, .reg rs2] => some (.or rd rs2)
-  | "c.and", [.reg rd, .reg rs2] => some (.and rd rs2)
-  | "c.j", [.imm v] => some (.j v)
-  | "c.beqz", [.reg rs1, .imm v] => some (.beqz rs1 v)
-  | "c.bnez", [.reg rs1, .imm v] => some (.bnez rs1 v)
-  | "c.slli", [.reg rd, .imm v] => some (.slli rd v.toNat)
-  | "c.lwsp", [.reg rd, .imm v] => some (.lwsp rd v.toNat)
-  | "c.jr", [.reg rs1] => some (.jr rs1)
-  | "c.mv", [.reg rd, .reg rs2] => some (.mv rd rs2)
-  | "c.ebreak", [] => some .ebreak
-  | "c.jalr", [.reg rs1] => some (.jalr rs1)
-  | "c.add", [.reg rd, .reg rs2] => some (.add rd rs2)
-  | "c.swsp", [.reg rs2, .imm v] => some (.swsp rs2 v.toNat)
+  | .srli, [.reg rd, .imm v] => some (.srli rd v.toNat)
+  | .srai, [.reg rd, .imm v] => some (.srai rd v.toNat)
+  | .andi, [.reg rd, .imm v] => some (.andi rd v)
+  | .sub, [.reg rd, .reg rs2] => some (.sub rd rs2)
+  | .xor, [.reg rd, .reg rs2] => some (.xor rd rs2)
+  | .or, [.reg rd, .reg rs2] => some (.or rd rs2)
+  | .and, [.reg rd, .reg rs2] => some (.and rd rs2)
+  | .j, [.imm v] => some (.j v)
+  | .beqz, [.reg rs1, .imm v] => some (.beqz rs1 v)
+  | .bnez, [.reg rs1, .imm v] => some (.bnez rs1 v)
+  | .slli, [.reg rd, .imm v] => some (.slli rd v.toNat)
+  | .lwsp, [.reg rd, .imm v] => some (.lwsp rd v.toNat)
+  | .jr, [.reg rs1] => some (.jr rs1)
+  | .mv, [.reg rd, .reg rs2] => some (.mv rd rs2)
+  | .ebreak, [] => some .ebreak
+  | .jalr, [.reg rs1] => some (.jalr rs1)
+  | .add, [.reg rd, .reg rs2] => some (.add rd rs2)
+  | .swsp, [.reg rs2, .imm v] => some (.swsp rs2 v.toNat)
   | _, _ => none
+
+/-- The RVC instruction that the source line `c.xxx operands…` denotes. -/
+def intent16 (name : String) (ops : List Opnd) : Option CInstr :=
+  match classOf16 name with
+  | some c => intentOf16 c ops
+  | none => none
 
 /-- canonical source text of an RVC instruction: mnemonic and operands -/
 def CInstr.text : CInstr → String × List Opnd
